@@ -423,6 +423,7 @@ fn main() {
     sections_float_algebra(&rep);
     sections_from_to_float_scaled(&rep, th);
     sections_angle_axis_more(&rep, th);
+    sections_round2(&rep, th);
     { let m = VSEEN.lock().unwrap(); let over: BTreeMap<String, u64> = m.iter().filter(|(_, v)| v.0 > 200).map(|(k, v)| (k.clone(), v.0)).collect(); if !over.is_empty() { rep.extra("violations_counted_beyond_the_200_itemised_per_kind", json!(over)); } }
     std::process::exit(rep.finish());
 }
@@ -1482,4 +1483,406 @@ fn sections_angle_axis_more(rep: &Report, th: bool) {
     let rule = "quaternions q = (axis/|axis| sin(theta/2), cos(theta/2)) computed in f64 and rounded to the type, axes the integer directions of {-1,0,1}^3 (thorough {-2..2}^3): (a) theta = +-m 2^-j and +-(2 pi - m 2^-j), m in {1, 1.5}, kept when 2^-E <= 1 - w^2 < 1/64 with E = 24 (f64) / 8 (f32) - the range the tier above skips; the bound 256 eps 2/(1-w^2) derived there is still far below the effect of a wrong axis (2 sin(theta/2)) in this range, so a widened `s < epsilon` guard is visible; (b) the negation -q of ordinary rotation quaternions (16, thorough 64 angles in (-3.1, 3.1)): -q is the same rotation, so angle and axis must describe the rotation of q (w < 0 inputs that do not come from a large angle); (c) (0,0,0,1), (0,0,0,-1) and quaternions whose vector part is below epsilon: the axis is arbitrary but must be unit, the rotation the identity within 256 eps; non-trivial: all";
     rep.section("into_angle_axis float tier f64: small angles, angles next to 2 pi, negated quaternions, +-identity", rule, true, false, |s| float_angle_axis_more!(s, f64, 24));
     rep.section("into_angle_axis float tier f32: small angles, angles next to 2 pi, negated quaternions, +-identity", rule, true, false, |s| float_angle_axis_more!(s, f32, 8));
+}
+
+// ====================================================================================================
+// Second strengthening round (out/AUDIT2.md): alphabets around the special values of every function in scope -
+// pairs next to parallel and next to opposite (just above the 180-degree threshold), nearly unit lengths and nearly
+// unit quaternions, quaternions next to the identity (vector part below epsilon), single-lane quaternions (w/w = 1),
+// squared norms in the subnormal range, rotation angles down to the guard of into_angle_axis.  Nothing above changed.
+// ====================================================================================================
+/// the reference product on absolute values with every table sign taken as +: sum of |terms| of each output component
+fn ham_abs(p: &Q4<f64>, q: &Q4<f64>) -> Q4<f64> { let mut o = [0.0; 4]; for a in 0..4 { for b in 0..4 { let (_, k) = TABLE[a][b]; o[k] += p[a].abs() * q[b].abs(); } } o }
+/// majorant of q (v,0) q*: the sum of the absolute values of all monomials q_a q_b v_c that enter each component along the sandwich
+fn rot_majorant(q: &Q4<f64>, v: &[f64; 3]) -> [f64; 3] { let s = ham_abs(&ham_abs(q, &[v[0], v[1], v[2], 0.0]), q); [s[0], s[1], s[2]] }
+/// entrywise majorant of the textbook matrix of a quaternion (1 - 2y^2 - 2z^2, 2xy -+ 2zw, ...): sum of the absolute values of its terms
+fn q2m_majorant(q: &Q4<f64>) -> A<f64, 3> {
+    let [x, y, z, w] = [q[0].abs(), q[1].abs(), q[2].abs(), q[3].abs()];
+    [[1.0 + 2.0 * (y * y + z * z), 2.0 * (x * y + z * w), 2.0 * (x * z + y * w)], [2.0 * (x * y + z * w), 1.0 + 2.0 * (x * x + z * z), 2.0 * (y * z + x * w)], [2.0 * (x * z + y * w), 2.0 * (y * z + x * w), 1.0 + 2.0 * (x * x + y * y)]]
+}
+/// componentwise |got_i - want_i| <= tol_i, NaN never passes
+fn within_c(got: &[f64], want: &[f64], tol: &[f64]) -> bool { got.iter().zip(want).zip(tol).all(|((g, w), t)| (g - w).abs() <= *t) }
+fn d3<T: Fl>(a: &[T; 3]) -> [f64; 3] { [a[0].d(), a[1].d(), a[2].d()] }
+fn d4<T: Fl>(a: &[T; 4]) -> [f64; 4] { [a[0].d(), a[1].d(), a[2].d(), a[3].d()] }
+
+// ---- float: rotation_from_to_3d next to parallel, next to opposite, nearly unit lengths ----------------
+macro_rules! float_from_to_narrow { ($s:expr, $T:ty, $jmax:expr, $ua:expr, $ub:expr) => {{
+    let s: &Section = $s;
+    s.require_classes(&["nearly parallel (not exactly)", "nearly opposite, 1+cos >= 64 eps (general branch required)", "nearly opposite, 1+cos < 64 eps (either branch)", "perturbation rounded away: exactly parallel", "perturbation rounded away: exactly opposite", "nearly unit lengths"]);
+    let tf = |v: f64| <$T as Fl>::f(v);
+    let eps = <$T as Fl>::EPS;
+    let name = <$T as Fl>::NAME;
+    let frames: [([i64; 3], [i64; 3]); 8] = [([1, 0, 0], [0, 1, 0]), ([0, 1, 0], [0, 0, -1]), ([0, 0, -1], [1, 0, 0]), ([1, 2, 2], [2, 1, -2]), ([-3, 4, 0], [0, 0, 5]), ([1, 1, 1], [1, -1, 0]), ([0, -2, 1], [3, 0, 0]), ([2, -1, 2], [1, 2, 0])];
+    let lens: [(f64, f64); 3] = [(1.0, 1.0), (3.0, 0.5), (p2(-20), p2(10))];
+    // (family, from, to, tag, weight)
+    let mut cases: Vec<(u8, [$T; 3], [$T; 3], Value, u64)> = Vec::new();
+    for (fi, (d, e)) in frames.iter().enumerate() { for j in 1..=($jmax as i32) { for m in [1.0, -1.5] { for anti in [false, true] { for (li, &(la, mu)) in lens.iter().enumerate() {
+        let sg: $T = if anti { tf(-1.0) } else { tf(1.0) };
+        let pert = |i: usize| tf(d[i] as f64) + tf(m * p2(-j)) * tf(e[i] as f64);
+        let from = [tf(la) * tf(d[0] as f64), tf(la) * tf(d[1] as f64), tf(la) * tf(d[2] as f64)];
+        let to = [tf(mu) * (sg * pert(0)), tf(mu) * (sg * pert(1)), tf(mu) * (sg * pert(2))];
+        cases.push((if anti { 1 } else { 0 }, from, to, json!({"from = l*d, to = (+-)mu*(d + m 2^-j e), d.e = 0": {"d": d, "e": e, "m": m, "j": j, "sign": if anti { -1 } else { 1 }, "l": la, "mu": mu}}), j as u64 + 100 * fi as u64 + li as u64));
+    } } } } }
+    let n_sweep = cases.len();
+    let (ua, ub): (f64, f64) = (1.0 + p2(-$ua), 1.0 - p2(-$ub));
+    let dirs = int_dirs(1);
+    for d1 in &dirs { for d2 in &dirs {
+        let (n1, n2) = ((wsum(d1) as f64).sqrt(), (wsum(d2) as f64).sqrt());   // components are 0, +-1: sum of |.| = squared length
+        let from = [tf(d1[0] as f64 / n1) * tf(ua), tf(d1[1] as f64 / n1) * tf(ua), tf(d1[2] as f64 / n1) * tf(ua)];
+        let to = [tf(d2[0] as f64 / n2) * tf(ub), tf(d2[1] as f64 / n2) * tf(ub), tf(d2[2] as f64 / n2) * tf(ub)];
+        cases.push((2, from, to, json!({"from = fl(d1/|d1|)*(1+2^-a), to = fl(d2/|d2|)*(1-2^-b)": {"d1": d1, "d2": d2, "a": $ua, "b": $ub}}), 1000 + wsum(d1) + wsum(d2)));
+    } }
+    s.meta("cases", json!({"sweep": n_sweep, "nearly unit lengths": cases.len() - n_sweep})); s.meta("j_max", json!($jmax));
+    let mut cl: BTreeMap<&'static str, u64> = BTreeMap::new();
+    for (fam, from, to, tag, weight) in &cases {
+        let (fam, from, to, weight) = (*fam, *from, *to, *weight);
+        let (f, t) = (d3(&from), d3(&to));
+        let (collinear, positive) = exact_collinear(&f, &t);
+        let (nf, ntt) = (dotn(&f, &f).sqrt(), dotn(&t, &t).sqrt());
+        let want = [t[0] / ntt * nf, t[1] / ntt * nf, t[2] / ntt * nf];
+        // 1 + cos = |f/|f| + t/|t||^2 / 2: no cancellation beyond the one inside the sum of the two unit vectors (absolute error 2 eps64 there)
+        let sm = [f[0] / nf + t[0] / ntt, f[1] / nf + t[1] / ntt, f[2] / nf + t[2] / ntt];
+        let c = dotn(&sm, &sm) / 2.0;
+        let anti = collinear && !positive;
+        // exactly opposite: 256 eps |from|; otherwise the half-angle bound 256 eps |from| / cos(theta/2), capped by the derived cap of the
+        // float tier above (8 sqrt(eps) |from|: whichever branch an implementation with a 180-degree threshold <= 16 eps takes)
+        let tol = if anti { vx::fl::K * eps * nf } else { nf * (vx::fl::K * eps / (c / 2.0).sqrt()).min(8.0 * eps.sqrt()) };
+        let class = if fam == 2 { "nearly unit lengths" } else if collinear && positive { "perturbation rounded away: exactly parallel" } else if anti { "perturbation rounded away: exactly opposite" }
+            else if fam == 0 { "nearly parallel (not exactly)" } else if c >= 64.0 * eps { "nearly opposite, 1+cos >= 64 eps (general branch required)" } else { "nearly opposite, 1+cos < 64 eps (either branch)" };
+        *cl.entry(class).or_insert(0) += 1;
+        let cls = if fam == 2 { "nearly-unit-length-pair-not-mapped-onto-to-within-error-bound" } else if anti { "opposite-pair-not-mapped-onto-to-within-error-bound" } else if fam == 0 { "narrow-angle-pair-not-mapped-onto-to-within-error-bound" }
+            else if c >= 64.0 * eps { "nearly-opposite-pair-above-the-180-degree-threshold-not-mapped-onto-to-within-error-bound" } else { "nearly-opposite-pair-not-mapped-onto-to-within-sqrt-eps" };
+        let inp = || json!({"from": f, "to": t, "construction": tag, "exactly_collinear": collinear, "1+cos": c});
+        s.eval(!(collinear && positive));
+        let site = format!("Quaternion::rotation_from_to_3d<{}>", name);
+        if let Some((qd, r)) = s.call(&site, inp, || { let q = Quaternion::<$T>::rotation_from_to_3d(v3(&from), v3(&to)); (dq(q), dv3(&(q * v3(&from)))) }) {
+            let (qf, rf) = (d4(&qd), d3(&r));
+            if !((norm2(&qf) - 1.0).abs() <= vx::fl::K * eps) { viol(s, &site, "not-a-unit-quaternion-within-error-bound", || json!({"input": inp(), "got_xyzw": qf, "norm_squared": norm2(&qf)}), weight); }
+            if !within(&rf, &want, tol) { viol(s, &site, cls, || json!({"input": inp(), "got_xyzw": qf.map(|v| format!("{:e}", v)), "real q*from": rf.map(|v| format!("{:e}", v)), "want": want, "tolerance": tol}), weight); }
+            if s.wants_sample() && fam == 1 && !collinear && c < 1e-4 && c >= 64.0 * eps && from[1] != tf(0.0) { s.sample(json!({"input": inp(), "real_quaternion_xyzw": qf, "real q*from": rf, "oracle": want, "tolerance": tol})); }
+        }
+        macro_rules! mat { ($M:ty, $N:expr) => {{
+            let site = format!("{}::rotation_from_to_3d<{}>", <$M as QM<$T, $N>>::NAME, name);
+            s.eval(!(collinear && positive));
+            if let Some((m, mv)) = s.call(&site, inp, || { let m = <$M as QR<$T, $N>>::t_from_to(from, to); (m.decode(), m.t_mulv(pad::<$T, $N>(&from, tf(0.0)))) }) {
+                let mut by_fields = [0.0f64; 3]; for i in 0..3 { for j in 0..3 { by_fields[i] += m[i][j].d() * f[j]; } }
+                let mvf: Vec<f64> = mv.iter().map(|v| v.d()).collect();
+                let ok = within(&mvf[..3], &want, tol) && within(&by_fields, &want, tol) && ($N == 3 || mvf[$N - 1] == 0.0);
+                if !ok { viol(s, &site, cls, || json!({"input": inp(), "real M*from": mvf.iter().map(|v| format!("{:e}", v)).collect::<Vec<_>>(), "fields*from": by_fields.map(|v| format!("{:e}", v)), "want": want, "tolerance": tol}), weight); }
+            }
+        }} }
+        mat!(rm::Mat3<$T>, 3); mat!(cm::Mat3<$T>, 3); mat!(rm::Mat4<$T>, 4); mat!(cm::Mat4<$T>, 4);
+    }
+    for (k, n) in cl { s.class_n(k, n); }
+}} }
+
+// ---- float: quaternions next to the identity applied to vectors, componentwise ---------------------------
+macro_rules! float_apply_tiny { ($s:expr, $T:ty, $ks:expr) => {{
+    let s: &Section = $s;
+    s.require_classes(&["w=+1", "w=-1", "single-lane vector part", "multi-lane vector part", "axis-aligned vector", "general vector", "Vec4 w=0"]);
+    let tf = |v: f64| <$T as Fl>::f(v);
+    let eps = <$T as Fl>::EPS;
+    let name = <$T as Fl>::NAME;
+    let kf = vx::fl::K;
+    let floor = kf * <$T as FlX>::MINPOS * eps;   // one unit of the subnormal grid per operation (underflow of a product inside a sum)
+    let lanes: [[f64; 3]; 7] = [[1.0, 0.0, 0.0], [0.0, 1.0, 0.0], [0.0, 0.0, 1.0], [-1.0, 0.0, 0.0], [1.0, -2.0, 0.0], [0.0, 3.0, -1.0], [2.0, 1.0, -3.0]];
+    let vs: [[f64; 3]; 8] = [[1.0, 0.0, 0.0], [0.0, 1.0, 0.0], [0.0, 0.0, 1.0], [-1.0, 0.0, 0.0], [0.0, -1.0, 0.0], [0.0, 0.0, -1.0], [1.0, 2.0, 3.0], [-2.0, 0.5, 5.0]];
+    let ks: Vec<i32> = $ks;
+    s.meta("vector part = lane * 2^-k, k in", json!(ks)); s.meta("lanes", json!(lanes)); s.meta("vectors", json!(vs));
+    let mut cl: BTreeMap<&'static str, u64> = BTreeMap::new();
+    let mut idx = 0usize;
+    for &k in &ks { for (li, lane) in lanes.iter().enumerate() { for w0 in [1.0, -1.0] { for (vi, v0) in vs.iter().enumerate() { for vk in [0, -20] {
+        idx += 1;
+        let x = tf(p2(-k));
+        let qt: Q4<$T> = [tf(lane[0]) * x, tf(lane[1]) * x, tf(lane[2]) * x, tf(w0)];
+        let v: [$T; 3] = [tf(v0[0]) * tf(p2(vk)), tf(v0[1]) * tf(p2(vk)), tf(v0[2]) * tf(p2(vk))];
+        let w4: $T = [tf(0.0), tf(1.0), tf(-7.0)][idx % 3];
+        let v4a: [$T; 4] = [v[0], v[1], v[2], w4];
+        let (qf, vf) = (d4(&qt), d3(&v));
+        let nu = norm2(&qf);
+        let r = rot(&qf, &vf); let want = [r[0] / nu, r[1] / nu, r[2] / nu];
+        let maj = rot_majorant(&qf, &vf);
+        let tol = [kf * eps * maj[0] + floor, kf * eps * maj[1] + floor, kf * eps * maj[2] + floor];
+        let mm = q2m_majorant(&qf);
+        let tolm: Vec<f64> = (0..3).map(|i| kf * eps * (0..3).map(|j| mm[i][j] * vf[j].abs()).sum::<f64>() + floor).collect();
+        s.eval(true);
+        *cl.entry(if w0 > 0.0 { "w=+1" } else { "w=-1" }).or_insert(0) += 1;
+        *cl.entry(if li < 4 { "single-lane vector part" } else { "multi-lane vector part" }).or_insert(0) += 1;
+        *cl.entry(if vi < 6 { "axis-aligned vector" } else { "general vector" }).or_insert(0) += 1;
+        if w4 == tf(0.0) { *cl.entry("Vec4 w=0").or_insert(0) += 1; }
+        let inp = || json!({"q_xyzw": qf.map(|v| format!("{:e}", v)), "q = (lane * 2^-k, w)": {"lane": lane, "k": k, "w": w0}, "v": vf, "w_of_vec4": w4.d()});
+        let wt = k.unsigned_abs() as u64 + li as u64 + vi as u64;
+        let Some((g3, g4)) = s.call(&format!("Quaternion * Vec3<{}>", name), inp, || (dv3(&(mkq(&qt) * v3(&v))), dv4(&(mkq(&qt) * v4(&v4a))))) else { continue };
+        let (g3f, g4f) = (d3(&g3), d4(&g4));
+        if !within_c(&g3f, &want, &tol) { viol(s, &format!("Quaternion * Vec3<{}>", name), "quaternion-next-to-the-identity: component-outside-the-componentwise-error-bound", || json!({"input": inp(), "got": g3f.map(|v| format!("{:e}", v)), "want": want.map(|v| format!("{:e}", v)), "tolerance": tol}), wt); }
+        if !(g4[3] == w4) { viol(s, &format!("Quaternion * Vec4<{}>", name), "w-not-preserved", || json!({"input": inp(), "got": g4f}), wt); }
+        if !within_c(&g4f[..3], &want, &tol) { viol(s, &format!("Quaternion * Vec4<{}>", name), "quaternion-next-to-the-identity: component-outside-the-componentwise-error-bound", || json!({"input": inp(), "got": g4f.map(|v| format!("{:e}", v)), "want_xyz": want.map(|v| format!("{:e}", v)), "tolerance": tol}), wt); }
+        macro_rules! mat { ($M:ty, $N:expr) => {{
+            let site = format!("{}::from(Quaternion) * Vec{}<{}>", <$M as QM<$T, $N>>::NAME, $N, name);
+            let vin: [$T; $N] = { let mut t = [w4; $N]; for i in 0..3 { t[i] = v[i]; } t };
+            if let Some((m, mv)) = s.call(&site, inp, || { let m = <$M as QM<$T, $N>>::t_from_q(mkq(&qt)); (m.decode(), m.t_mulv(vin)) }) {
+                let mvf: Vec<f64> = mv.iter().map(|x| x.d()).collect();
+                let mut by_fields = [0.0f64; 3]; for i in 0..3 { for j in 0..3 { by_fields[i] += m[i][j].d() * vf[j]; } }
+                let ok = within_c(&mvf[..3], &want, &tolm) && within_c(&by_fields, &want, &tolm) && ($N == 3 || mv[$N - 1] == w4);
+                if !ok { viol(s, &site, "quaternion-next-to-the-identity: component-outside-the-componentwise-error-bound", || json!({"input": inp(), "real M*v": mvf.iter().map(|v| format!("{:e}", v)).collect::<Vec<_>>(), "decoded fields * v": by_fields.map(|v| format!("{:e}", v)), "true rotation": want.map(|v| format!("{:e}", v)), "tolerance": tolm}), wt); }
+            }
+        }} }
+        mat!(rm::Mat3<$T>, 3); mat!(cm::Mat3<$T>, 3); mat!(rm::Mat4<$T>, 4); mat!(cm::Mat4<$T>, 4);
+        if s.wants_sample() && li == 4 && vi == 1 && vk == 0 { s.sample(json!({"input": inp(), "real q*Vec3": g3f.map(|v| format!("{:e}", v)), "oracle": want.map(|v| format!("{:e}", v)), "componentwise tolerance": tol})); }
+    } } } } }
+    for (k, n) in cl { s.class_n(k, n); }
+}} }
+
+// ---- float: nearly unit quaternions, single-lane quaternions, squared norms in the subnormal range ----------
+macro_rules! float_algebra_special { ($s:expr, $T:ty, $jmax:expr, $ksub:expr) => {{
+    let s: &Section = $s;
+    s.require_classes(&["nearly unit", "single lane", "squared norm subnormal"]);
+    let tf = |v: f64| <$T as Fl>::f(v);
+    let eps = <$T as Fl>::EPS;
+    let name = <$T as Fl>::NAME;
+    let kf = vx::fl::K;
+    let one = [0.0, 0.0, 0.0, 1.0];
+    // (a) nearly unit
+    let q0s: [[f64; 4]; 5] = [[0.0, 0.0, 0.0, 1.0], [0.0, -1.0, 0.0, 0.0], [0.6, 0.8, 0.0, 0.0], [0.2, 0.4, 0.4, 0.8], [-2.0 / 7.0, 3.0 / 7.0, 0.0, 6.0 / 7.0]];
+    for (qi_, q0) in q0s.iter().enumerate() { for j in 2..=($jmax as i32) { for sg in [1.0, -1.0] {
+        let l = tf(1.0 + sg * p2(-j));
+        let p: Q4<$T> = [tf(q0[0]) * l, tf(q0[1]) * l, tf(q0[2]) * l, tf(q0[3]) * l];
+        let pf = d4(&p);
+        let want = alg_want(&pf, &pf);
+        s.eval(true); s.class("nearly unit");
+        let inp = || json!({"q_xyzw": pf, "q = fl(q0) * (1 +- 2^-j)": {"q0": q0, "j": j, "sign": sg}, "|q|^2 - 1": want.mag2 - 1.0});
+        let wt = j as u64 + qi_ as u64;
+        let Some((inv, li, ri, mag, nrm)) = s.call(&format!("Quaternion algebra<{}>", name), inp, || { let pp = mkq(&p); let i = pp.inverse(); (dq(i), dq(pp * i), dq(i * pp), pp.magnitude(), dq(pp.normalized())) }) else { continue };
+        if !within(&d4(&inv), &want.inv, kf * eps * amax(&want.inv)) { viol(s, &format!("Quaternion::inverse<{}>", name), "nearly-unit: not-conjugate-over-squared-norm-within-error-bound", || json!({"input": inp(), "got": d4(&inv), "want": want.inv}), wt); }
+        if !within(&d4(&li), &one, kf * eps) || !within(&d4(&ri), &one, kf * eps) { viol(s, &format!("Quaternion::inverse<{}>", name), "nearly-unit: q*inverse(q)-or-inverse(q)*q-is-not-1-within-error-bound", || json!({"input": inp(), "q*inverse(q)": d4(&li), "inverse(q)*q": d4(&ri)}), wt); }
+        if !within(&[mag.d()], &[want.mag], kf * eps * want.mag) { viol(s, &format!("Quaternion::magnitude<{}>", name), "nearly-unit: not-the-euclidean-norm-within-error-bound", || json!({"input": inp(), "got": mag.d(), "want": want.mag}), wt); }
+        let nf = d4(&nrm);
+        if !within(&nf, &want.nrm, kf * eps) || !((norm2(&nf) - 1.0).abs() <= kf * eps) { viol(s, &format!("Quaternion::normalized<{}>", name), "nearly-unit: not-q-over-its-norm-within-error-bound", || json!({"input": inp(), "got": nf, "want": want.nrm, "|got|^2 - 1": norm2(&nf) - 1.0}), wt); }
+        if s.wants_sample() && qi_ == 3 && j == 20 { s.sample(json!({"input": inp(), "real normalized": nf, "real inverse": d4(&inv)})); }
+    } } }
+    // (b) single lane: sqrt(fl(v*v)) = |v| in binary floating point (no overflow/underflow), hence magnitude = |v| and v/|v| = +-1 exactly
+    let mut vals: Vec<f64> = (0..50).map(|i| (2 * i + 1) as f64).collect();
+    vals.extend_from_slice(&[0.1, 1e-3, 1.0 / 3.0, 0.7, 1.0 + p2(-20), 1.0 - p2(-21), 123456.789]);
+    for lane in 0..4 { for v0 in &vals { for sg in [1.0, -1.0] { for k in [0, -30, 30] {
+        let v = tf(sg * v0) * tf(p2(k));
+        let mut p: Q4<$T> = [tf(0.0); 4]; p[lane] = v;
+        let mut want = [0.0; 4]; want[lane] = sg;
+        s.eval(true); s.class("single lane");
+        let inp = || json!({"q_xyzw": d4(&p), "lane": lane});
+        let Some((mag, nrm)) = s.call(&format!("Quaternion::normalized<{}>", name), inp, || { let pp = mkq(&p); (pp.magnitude(), dq(pp.normalized())) }) else { continue };
+        if !(mag.d() == v.d().abs()) { viol(s, &format!("Quaternion::magnitude<{}>", name), "single-lane: magnitude-is-not-exactly-the-absolute-value", || json!({"input": inp(), "got": mag.d()}), *v0 as u64); }
+        if d4(&nrm) != want { viol(s, &format!("Quaternion::normalized<{}>", name), "single-lane: v/|v|-is-not-exactly-+-1", || json!({"input": inp(), "got": d4(&nrm).map(|v| format!("{:e}", v)), "want": want}), *v0 as u64); }
+    } } } }
+    // (c) squared norm in the subnormal range (exactly representable there), inverse and normalized representable
+    let ksub: i32 = $ksub;
+    for a in box4(1) { if wsum(&a) == 0 { continue; }
+        let sc = tf(p2(-ksub));
+        let p: Q4<$T> = [tf(a[0] as f64) * sc, tf(a[1] as f64) * sc, tf(a[2] as f64) * sc, tf(a[3] as f64) * sc];
+        let af: Q4<f64> = [a[0] as f64, a[1] as f64, a[2] as f64, a[3] as f64];
+        let n2 = norm2(&af); let c = conj(&af);
+        let want_inv = [c[0] / n2, c[1] / n2, c[2] / n2, c[3] / n2];
+        let want_nrm = [af[0] / n2.sqrt(), af[1] / n2.sqrt(), af[2] / n2.sqrt(), af[3] / n2.sqrt()];
+        s.eval(true); s.class("squared norm subnormal");
+        let inp = || json!({"q_xyzw": d4(&p).map(|v| format!("{:e}", v)), "q = a * 2^-k": {"a": a, "k": ksub}, "|q|^2 in the type": format!("{:e}", (mkq(&p).magnitude_squared()).d())});
+        let Some((m2, inv, li, ri, nrm)) = s.call(&format!("Quaternion algebra<{}>", name), inp, || { let pp = mkq(&p); let i = pp.inverse(); (pp.magnitude_squared(), dq(i), dq(pp * i), dq(i * pp), dq(pp.normalized())) }) else { continue };
+        // the premise of the policy: the squared length itself is representable (here: exactly)
+        if !(m2.d() == n2 * p2(-ksub) * p2(-ksub)) { s.rep.machinery_error(format!("squared norm not exactly representable for {:?} * 2^-{} in {}", a, ksub, name)); continue; }
+        let g: Q4<f64> = { let i = d4(&inv); [i[0] * p2(-ksub), i[1] * p2(-ksub), i[2] * p2(-ksub), i[3] * p2(-ksub)] };
+        if !within(&g, &want_inv, kf * eps * amax(&want_inv)) { viol(s, &format!("Quaternion::inverse<{}>", name), "subnormal-squared-norm: not-conjugate-over-squared-norm-within-error-bound", || json!({"input": inp(), "got * 2^-k": g, "want": want_inv}), wsum(&a)); }
+        if !within(&d4(&li), &one, kf * eps) || !within(&d4(&ri), &one, kf * eps) { viol(s, &format!("Quaternion::inverse<{}>", name), "subnormal-squared-norm: q*inverse(q)-or-inverse(q)*q-is-not-1-within-error-bound", || json!({"input": inp(), "q*inverse(q)": d4(&li), "inverse(q)*q": d4(&ri)}), wsum(&a)); }
+        if !within(&d4(&nrm), &want_nrm, kf * eps) { viol(s, &format!("Quaternion::normalized<{}>", name), "subnormal-squared-norm: not-q-over-its-norm-within-error-bound", || json!({"input": inp(), "got": d4(&nrm), "want": want_nrm}), wsum(&a)); }
+        if s.wants_sample() && a == [1, -1, 0, 1] { s.sample(json!({"input": inp(), "real inverse": d4(&inv).map(|v| format!("{:e}", v)), "real normalized": d4(&nrm)})); }
+    }
+    s.meta("single_lane_values", json!(vals.len())); s.meta("subnormal_scale_exponent", json!(-ksub));
+}} }
+
+// ---- float: into_angle_axis from 1/64 down to the code's own guard -------------------------------------------
+macro_rules! float_angle_axis_small { ($s:expr, $T:ty, $jmax:expr) => {{
+    let s: &Section = $s;
+    s.require_classes(&["small angle, eps <= 1-w^2 < 1/64", "angle next to +-2pi, eps <= 1-w^2 < 1/64", "not asserted: 1-w^2 < eps (the code's own guard region: w*w may round to 1)"]);
+    let eps = <$T as Fl>::EPS; let tf = |v: f64| <$T as Fl>::f(v);
+    let name = <$T as Fl>::NAME;
+    let site = format!("Quaternion::into_angle_axis<{}>", name);
+    let dirs = int_dirs(1);
+    let pi = std::f64::consts::PI;
+    let mut cl: BTreeMap<&'static str, u64> = BTreeMap::new();
+    let mut smin = f64::INFINITY;
+    for j in 3..=($jmax as i32) { for sg in [1.0, -1.0] { for far in [false, true] { for m in [1.0, 1.5] { for d in &dirs {
+        let h = sg * if far { pi - m * p2(-j) } else { m * p2(-j) };   // half angle
+        let n = ((d[0] * d[0] + d[1] * d[1] + d[2] * d[2]) as f64).sqrt();
+        let qt: Q4<$T> = [tf(d[0] as f64 / n * h.sin()), tf(d[1] as f64 / n * h.sin()), tf(d[2] as f64 / n * h.sin()), tf(h.cos())];
+        let qf = d4(&qt);
+        let aw = qf[3].abs();
+        let s2 = (1.0 - aw) * (1.0 + aw);   // 1 - w^2 without cancellation (1 - |w| is exact)
+        if s2 >= 1.0 / 64.0 { continue; }
+        if s2 < eps { *cl.entry("not asserted: 1-w^2 < eps (the code's own guard region: w*w may round to 1)").or_insert(0) += 1; continue; }
+        let sn = s2.sqrt(); smin = smin.min(sn);
+        *cl.entry(if far { "angle next to +-2pi, eps <= 1-w^2 < 1/64" } else { "small angle, eps <= 1-w^2 < 1/64" }).or_insert(0) += 1;
+        s.eval(true);
+        let inp = || json!({"q_xyzw": qf.map(|v| format!("{:e}", v)), "built_from": {"half angle": h, "axis_direction": d}, "sqrt(1-w^2)": sn});
+        let wt = j as u64 + wsum(d);
+        let Some((ang, ax)) = s.call(&site, inp, || { let (a, v) = mkq(&qt).into_angle_axis(); (a.d(), [v.x.d(), v.y.d(), v.z.d()]) }) else { continue };
+        let xyz = [qf[0], qf[1], qf[2]];
+        // axis = xyz / s with one and the same s: each component carries one rounding, so axis x xyz vanishes up to eps |axis| |xyz|, independent of the cancellation in s
+        let cr = cross3(&ax, &xyz);
+        let (la, lx) = (dotn(&ax, &ax).sqrt(), dotn(&xyz, &xyz).sqrt());
+        let sense = dotn(&ax, &xyz) * (ang / 2.0).sin();
+        if !(amax(&cr) <= 8.0 * eps * la * lx) || !(sense > 0.0) { viol(s, &site, "axis-not-parallel-to-the-vector-part-within-rounding", || json!({"input": inp(), "angle": ang, "axis": ax, "axis x xyz": cr.map(|v| format!("{:e}", v)), "bound": 8.0 * eps * la * lx, "(axis.xyz) sin(angle/2)": sense}), wt); }
+        // rotation: the angle 2 acos(w) differs from the angle of the (not exactly unit) quaternion by (|q|^2-1)/s <= 4 eps / s; a non-unit axis (relative error eps/s^2) enters the matrix times sin(angle) ~ 2 s
+        let want = ref_q2m(&qf);
+        let got = rodrigues_f(&ax, ang.cos(), ang.sin());
+        let tol = vx::fl::K * eps * (1.0 + 1.0 / sn);
+        let worst = (0..3).flat_map(|i| (0..3).map(move |j| (i, j))).map(|(i, j)| (got[i][j] - want[i][j]).abs()).fold(0.0, f64::max);
+        if !(worst <= tol) { viol(s, &site, "small-angle: angle-axis-describe-a-different-rotation-beyond-256-eps-(1+1/s)", || json!({"input": inp(), "angle": ang, "axis": ax, "worst_matrix_entry_error": worst, "tolerance": tol}), wt); }
+        if !((la - 1.0).abs() <= vx::fl::K * eps * 2.0 / s2) { viol(s, &site, "axis-not-unit-within-error-bound", || json!({"input": inp(), "angle": ang, "axis": ax, "axis_length": la, "tolerance": vx::fl::K * eps * 2.0 / s2}), wt); }
+        if s.wants_sample() && !far && sn < 1e-3 && d[0] != 0 && d[1] != 0 { s.sample(json!({"input": inp(), "real_angle": ang, "real_axis": ax, "rotation tolerance": tol})); }
+    } } } } }
+    for (k, n) in cl { s.class_n(k, n); }
+    s.meta("smallest sqrt(1-w^2) asserted", json!(smin));
+}} }
+
+fn sections_round2(rep: &Report, th: bool) {
+    // ---- exact: quaternions next to the identity applied to vectors (sandwich; the law q (v,0) q* holds for every quaternion) ----
+    rep.section("round 2: quaternions whose vector part lies below epsilon, applied to Vec3 / Vec4 (exact sandwich)",
+        "q = (a x, b x, c x, w) with (a,b,c) in {-1,0,1,2}^3 minus 0 (thorough {-2..2}^3), x in {2^-60, 2^-53, 3*2^-56}, w in {1, -1, 1+2^-60, 2}: every |component of the vector part| is far below the 2^-52 epsilon of the exact type and w is next to (or at) +-1, i.e. the quaternion is 'approximately the identity' for any epsilon test, yet q*v differs from v by the exactly representable amount 2 w (u x v) + ...; vectors e_x, e_y, e_z, (1,2,3), (-2,1/2,5); Vec4 w in {0, 1, -7}: real q*Vec3 == reference sandwich q (v,0) q* (the polynomial law the complete sections above establish for all quaternions), q*Vec4 the same xyz with w untouched; non-trivial: all", true, false, |s| {
+        s.require_classes(&["w = 1 exactly", "w = -1", "w next to 1", "w = 2"]);
+        let lanes = box3(if th { &[-2, -1, 0, 1, 2] } else { &[-1, 0, 1, 2] });
+        let xsc = [p2x(-60), p2x(-53), qi(3) * p2x(-56)];
+        let ws: [(X, &str); 4] = [(ONE, "w = 1 exactly"), (-ONE, "w = -1"), (ONE + p2x(-60), "w next to 1"), (qi(2), "w = 2")];
+        let vs: [[X; 3]; 5] = [e3(0), e3(1), e3(2), [qi(1), qi(2), qi(3)], [qi(-2), q(1, 2), qi(5)]];
+        lanes.par_iter().for_each(|l| { if wsum(l) == 0 { return; }
+            for (xi, x) in xsc.iter().enumerate() { for (wi, (w, wc)) in ws.iter().enumerate() { for (vi, v) in vs.iter().enumerate() {
+                let qd: Q4<X> = [qi(l[0] as i128) * *x, qi(l[1] as i128) * *x, qi(l[2] as i128) * *x, *w];
+                let w4 = [Z, ONE, qi(-7)][(xi + wi + vi) % 3];
+                let v4a = [v[0], v[1], v[2], w4];
+                s.eval(true); s.class(wc);
+                let inp = || json!({"q_xyzw": jxs(&qd), "v": jxs(v), "w_of_vec4": jx(w4)});
+                let wt = wsum(l) + xi as u64 + wi as u64 + vi as u64;
+                guarded(s, || {
+                    let want = rot(&qd, v);
+                    let Some((g3, g4)) = s.call("Quaternion * Vec3", inp, || (dv3(&(mkq(&qd) * v3(v))), dv4(&(mkq(&qd) * v4(&v4a))))) else { return };
+                    if g3 != want { viol(s, "Quaternion * Vec3", "not-the-sandwich-q-v-q*", || json!({"input": inp(), "got": jxs(&g3), "want": jxs(&want), "got_equals_v": g3 == *v}), wt); }
+                    if g4[3] != w4 { viol(s, "Quaternion * Vec4", "w-not-preserved", || json!({"input": inp(), "got": jxs(&g4)}), wt); }
+                    if g4[..3] != want { viol(s, "Quaternion * Vec4", "xyz-not-the-sandwich-q-v-q*", || json!({"input": inp(), "got": jxs(&g4), "want_xyz": jxs(&want)}), wt); }
+                    if s.wants_sample() && wi == 0 && xi == 0 && vi == 1 && l[0] != 0 { s.sample(json!({"input": inp(), "real q*Vec3": jxs(&g3)})); }
+                });
+            } } }
+        });
+    });
+
+    // ---- exact: nearly unit quaternions ----
+    rep.section("round 2: nearly unit quaternions (exact): magnitude, normalized, inverse on l*q0 with l = 1 +- 2^-54 and 1 + 2^-20",
+        "q0 = p/|p| for every p in {-2..2}^4 (thorough {-3..3}^4) of non-zero perfect-square norm, q = l q0 with l in {1 + 2^-54, 1 - 2^-54, 1 + 2^-20}: the squared norm differs from 1 by less than (first two) / more than (third) the 2^-52 epsilon of the exact type, so a shortcut 'already normalized' / 'already unit, the conjugate is the inverse' keyed on an epsilon comparison takes the wrong exit; checked: magnitude(q) == l, magnitude_squared == l^2, normalized(q) == q0 exactly (then applied to (1,2,3): the reference sandwich of q0), inverse(q) == conj(q0)/l, q*inverse(q) == inverse(q)*q == (0,0,0,1); non-trivial: all", true, false, |s| {
+        s.require_classes(&["| |q|^2 - 1 | < epsilon", "| |q|^2 - 1 | > epsilon"]);
+        let pts = box4(if th { 3 } else { 2 });
+        let ls = [ONE + p2x(-54), ONE - p2x(-54), ONE + p2x(-20)];
+        pts.par_iter().for_each(|a| {
+            let n2: i64 = a.iter().map(|v| v * v).sum();
+            let Some(n) = Q::isqrt(n2 as i128) else { return }; if n == 0 { return; }
+            let q0: Q4<X> = [q(a[0] as i128, n), q(a[1] as i128, n), q(a[2] as i128, n), q(a[3] as i128, n)];
+            for (li, l) in ls.iter().enumerate() {
+                let ql = scl4(&q0, *l);
+                s.eval(true); s.class(if li < 2 { "| |q|^2 - 1 | < epsilon" } else { "| |q|^2 - 1 | > epsilon" });
+                let inp = || json!({"q_xyzw": jxs(&ql), "q = l * q0": {"l": jx(*l), "q0": jxs(&q0)}});
+                let w = wsum(a) + li as u64;
+                let v = [qi(1), qi(2), qi(3)];
+                guarded(s, || {
+                    if let Some((m, m2, nz, app)) = s.call("Quaternion::magnitude", inp, || { let qq = mkq(&ql); (qq.magnitude(), qq.magnitude_squared(), dq(qq.normalized()), dv3(&(qq.normalized() * v3(&v)))) }) {
+                        if m != *l || m2 != *l * *l { viol(s, "Quaternion::magnitude", "not-the-euclidean-norm", || json!({"input": inp(), "magnitude": jx(m), "magnitude_squared": jx(m2), "want": jx(*l)}), w); }
+                        if nz != q0 { viol(s, "Quaternion::normalized", "nearly-unit-quaternion-not-normalized", || json!({"input": inp(), "got": jxs(&nz), "want": jxs(&q0), "returned_unchanged": nz == ql}), w); }
+                        else if app != rot(&q0, &v) { viol(s, "Quaternion * Vec3", "not-the-sandwich-q-v-q*", || json!({"input": inp(), "got": jxs(&app), "want": jxs(&rot(&q0, &v))}), w); }
+                    }
+                    if let Some((inv, lft, rgt)) = s.call("Quaternion::inverse", inp, || { let i = mkq(&ql).inverse(); (dq(i), dq(mkq(&ql) * i), dq(i * mkq(&ql))) }) {
+                        let c = conj(&q0); let want = [c[0] / *l, c[1] / *l, c[2] / *l, c[3] / *l];
+                        if inv != want { viol(s, "Quaternion::inverse", "nearly-unit: not-conjugate-over-squared-norm", || json!({"input": inp(), "got": jxs(&inv), "want": jxs(&want), "got_is_the_conjugate": inv == conj(&ql)}), w); }
+                        if lft != [Z, Z, Z, ONE] || rgt != [Z, Z, Z, ONE] { viol(s, "Quaternion::inverse", "nearly-unit: q*inverse(q)-or-inverse(q)*q-is-not-1", || json!({"input": inp(), "q*inverse(q)": jxs(&lft), "inverse(q)*q": jxs(&rgt)}), w); }
+                        if s.wants_sample() && li == 0 && n == 3 { s.sample(json!({"input": inp(), "real inverse": jxs(&inv)})); }
+                    }
+                });
+            }
+        });
+    });
+
+    // ---- exact: rotation_from_to_3d next to parallel / opposite, nearly unit lengths ----
+    rep.section("round 2: rotation_from_to_3d exact: pairs next to parallel and next to opposite, nearly unit lengths (all-rational runs)",
+        "planar pairs from = l1 e1, to = l2 (cos(theta) e1 + sin(theta) e2), theta the double of the rational half-angle point of parameter t, in the frames (e_x,e_y), (e_y,e_z), (e_z,-e_x), ((3/5,4/5,0),(-4/5,3/5,0)): (N) t in {+-2^-8, +-2^-12, 2^-14} (theta ~ 4t: next to parallel, sin^2(theta) down to 2^-24) and t = +-(1 - 2^-k), k in {8, 12, 14} (theta next to pi, 1 + cos(theta) down to 2^-27: far above the 180-degree threshold of a few 2^-52, far below the nearest pair of the sections above (2e-6)), lengths (1,1) and (3,1/2); (U) ordinary half-angle points (4/5,3/5), (3/5,4/5), (-3/5,4/5), (12/13,5/13), (1,0) parallel, (0,1) exactly opposite, with l1 = 1 + 2^-54, l2 = 1 - 2^-54 and with (1 + 2^-20, 1): lengths whose squares are within / outside epsilon of 1.  Verdicts as in the exact section above (unit quaternion, from mapped onto the positive multiple of to with |from| kept, Vec4 arguments, four matrix wrappers); non-trivial: pair not parallel", true, false, |s| {
+        s.require_classes(&["next to parallel", "next to opposite", "nearly unit lengths", "nearly unit lengths, exactly opposite", "nearly unit lengths, parallel"]);
+        let frames: [([X; 3], [X; 3]); 4] = [(e3(0), e3(1)), (e3(1), e3(2)), (e3(2), [-ONE, Z, Z]), ([q(3, 5), q(4, 5), Z], [q(-4, 5), q(3, 5), Z])];
+        let half = |t: X| { let den = ONE + t * t; ((ONE - t * t) / den, (t + t) / den) };
+        let mut cases: Vec<([X; 3], [X; 3], Kind, &'static str)> = Vec::new();
+        let mk = |e1: &[X; 3], e2: &[X; 3], ch: X, sh: X, l1: X, l2: X| -> ([X; 3], [X; 3]) {
+            let (ct, st) = (ch * ch - sh * sh, (sh + sh) * ch);
+            (scl3(e1, l1), [(e1[0] * ct + e2[0] * st) * l2, (e1[1] * ct + e2[1] * st) * l2, (e1[2] * ct + e2[2] * st) * l2])
+        };
+        for (e1, e2) in &frames {
+            for (l1, l2) in [(ONE, ONE), (qi(3), q(1, 2))] {
+                for t in [p2x(-8), -p2x(-8), p2x(-12), -p2x(-12), p2x(-14)] { let (ch, sh) = half(t); let (f, to) = mk(e1, e2, ch, sh, l1, l2); cases.push((f, to, Kind::Acute, "next to parallel")); }
+                for k in [8, 12, 14] { for sg in [ONE, -ONE] { let (ch, sh) = half(sg * (ONE - p2x(-k))); let (f, to) = mk(e1, e2, ch, sh, l1, l2); cases.push((f, to, Kind::Obtuse, "next to opposite")); } }
+            }
+            for (l1, l2) in [(ONE + p2x(-54), ONE - p2x(-54)), (ONE + p2x(-20), ONE)] {
+                for (ch, sh) in [(q(4, 5), q(3, 5)), (q(3, 5), q(4, 5)), (q(-3, 5), q(4, 5)), (q(12, 13), q(5, 13)), (ONE, Z), (Z, ONE)] {
+                    let (f, to) = mk(e1, e2, ch, sh, l1, l2);
+                    let (kind, cls) = if sh == Z { (Kind::Parallel, "nearly unit lengths, parallel") } else if ch == Z { (if e1[0].rat().abs() > e1[2].rat().abs() { Kind::AntiXY } else { Kind::AntiZY }, "nearly unit lengths, exactly opposite") }
+                        else { (if ch * ch - sh * sh > Z { Kind::Acute } else { Kind::Obtuse }, "nearly unit lengths") };
+                    cases.push((f, to, kind, cls));
+                }
+            }
+        }
+        cases.par_iter().enumerate().for_each(|(i, (f, t, kind, cls))| { s.class(cls); from_to_case(s, f, t, *kind, 10 + i as u64); });
+        s.meta("pairs", json!(cases.len()));
+    });
+
+    // ---- exact: into_angle_axis at sin(theta/2) ~ 2^-11 (full verdict) and ~ 2^-24 (axis and angle verdict) ----
+    rep.section("round 2: into_angle_axis exact: sin(theta/2) = 2^-11 and 2^-24 (between the code's epsilon and the smallest angle of the sections above)",
+        "theta = 2 k arg(z), z the rational circle point of parameter t = 2^-12 (k in {1,-1}) and t = 2^-25 (k = 1): sin(theta/2) ~ 2^-11 / 2^-24, both at least 2^28 times the 2^-52 guard on s = sqrt(1 - w^2), so the real axis must come back; axes: every 8th rational unit vector (thorough every 2nd); input: the reference quaternion by struct literal.  t = 2^-12: |axis|^2 = 1 and Rodrigues(axis, cos angle, sin angle) == reference matrix of q.  t = 2^-25 (the 3x3 products leave the exact type): axis == +-(the axis handed in), |axis|^2 = 1, and (cos, sin) of the returned angle == (cos theta, +-sin theta) with the same sign - which is the same statement for a rotation about a known line; non-trivial: all", true, false, |s| {
+        s.require_classes(&["sin(theta/2) ~ 2^-11", "sin(theta/2) ~ 2^-24"]);
+        let axes: Vec<[X; 3]> = unit_axes().into_iter().enumerate().filter(|(i, _)| i % (if th { 2 } else { 8 }) == 0).map(|(_, a)| a).collect();
+        let site = "Quaternion::into_angle_axis";
+        for (td, ks, full) in [(1i128 << 12, vec![1i128, -1], true), (1i128 << 25, vec![1], false)] {
+            let b = angle_base_t(1, td);
+            for k2 in ks {
+                let (theta, half) = (X::tok(b, 2 * k2), X::tok(b, k2));
+                let (sh, ch) = half.sin_cos_q();
+                let (st, ct) = theta.sin_cos_q();
+                clear_inverse(); register_inverse(if sh.n >= 0 { half } else { X::tok(b, -k2) });
+                let cls = if full { "sin(theta/2) ~ 2^-11" } else { "sin(theta/2) ~ 2^-24" };
+                for ax in &axes {
+                    let qd: Q4<X> = [ax[0] * X::R(sh), ax[1] * X::R(sh), ax[2] * X::R(sh), X::R(ch)];
+                    s.eval(true); s.class(cls);
+                    let inp = || json!({"q_xyzw": jxs(&qd), "built_by": format!("struct literal (axis sin(theta/2), cos(theta/2)), t = 1/{}, k = {}", td, k2), "unit_axis": jxs(ax)});
+                    let w = k2.unsigned_abs() as u64 + wx(ax);
+                    let Some((ang, axis)) = s.call(site, inp, || { let (a, v) = mkq(&qd).into_angle_axis(); (a, dv3(&v)) }) else { continue };
+                    let Some((sa, ca)) = s.call(site, inp, || ang.sin_cos_q()) else { continue };
+                    guarded(s, || {
+                        if dotn(&axis, &axis) != ONE { viol(s, site, "axis-not-unit", || json!({"input": inp(), "angle": jx(ang), "axis": jxs(&axis)}), w); }
+                        if full {
+                            let got = rodrigues(&axis, X::R(ca), X::R(sa));
+                            if got != ref_q2m(&qd) { viol(s, site, "angle-axis-describe-a-different-rotation", || json!({"input": inp(), "angle": jx(ang), "angle_radians~": ang.shadow(), "axis": jxs(&axis), "rotation(angle, axis)": jmat(&got), "rotation of q": jmat(&ref_q2m(&qd))}), w); }
+                        } else {
+                            let sgn = dotn(&axis, ax);
+                            let same_line = (sgn == ONE || sgn == -ONE) && axis == scl3(ax, sgn);
+                            if !same_line || ca != ct || X::R(sa) * sgn != X::R(st) { viol(s, site, "angle-axis-describe-a-different-rotation", || json!({"input": inp(), "angle": jx(ang), "angle_radians~": ang.shadow(), "axis": jxs(&axis), "(cos, sin) of the angle": [jd(&ca), jd(&sa)], "want (cos, sin) theta": [jd(&ct), jd(&st)]}), w); }
+                        }
+                        if s.wants_sample() && !full && axis[0] != Z && axis[1] != Z { s.sample(json!({"input": inp(), "real_angle": jx(ang), "real_angle_radians~": ang.shadow(), "real_axis": jxs(&axis)})); }
+                    });
+                }
+            }
+        }
+        clear_inverse();
+        s.meta("axes", json!(axes.len()));
+    });
+
+    // ---- float tiers ----
+    let rule_n = "(S) sweep: eight orthogonal integer frames (d, e) (three coordinate frames, where the perturbation survives at every size, and five with full-length components), from = l d, to = +-mu (d + m 2^-j e) formed in the type, m in {1, -1.5}, j = 1..J (J = 60 for f64, 30 for f32), (l, mu) in {(1,1), (3,1/2), (2^-20, 2^10)}: the + family runs through angles 2^-j next to parallel (a guard on the cross product, a half-angle obtained through acos or sin/(1-cos), lose exactly these), the - family through pairs next to opposite with 1 + cos ~ 4^-j/2 from 1/2 down through the 180-degree threshold (a few eps) to exactly opposite; (U) all 26^2 ordered pairs of directions of {-1,0,1}^3 normalised in f64, rounded to the type and scaled by 1 + 2^-a (from) and 1 - 2^-b (to), (a,b) = (20,18) for f64, (10,9) for f32: lengths next to 1.  Every pair is classified exactly (collinear? sense?) on the floats; oracle in f64 from the very floats: want = to |from|/|to|; tolerance: exactly opposite 256 eps |from|; otherwise |from| min(256 eps / cos(theta/2), 8 sqrt(eps)) with cos^2(theta/2) = (1 + cos)/2 computed as |f/|f| + t/|t||^2/4 - the half-angle bound of the float tier above, capped by its derived cap for implementations with a 180-degree threshold <= 16 eps (next to parallel this is 256 eps |from|); checked: |q|^2 = 1 within 256 eps, real q*from, real M*from and decoded-fields*from of the four matrix wrappers; non-trivial: pair not parallel";
+    rep.section("round 2: rotation_from_to_3d float tier f64: next to parallel, next to opposite down through the threshold, nearly unit lengths", rule_n, true, false, |s| float_from_to_narrow!(s, f64, 60, 20, 18));
+    rep.section("round 2: rotation_from_to_3d float tier f32: next to parallel, next to opposite down through the threshold, nearly unit lengths", rule_n, true, false, |s| float_from_to_narrow!(s, f32, 30, 10, 9));
+    let rule_t = "q = (lane 2^-k, w) by struct literal, lane in {e_x, e_y, e_z, -e_x, (1,-2,0), (0,3,-1), (2,1,-3)}, w in {1, -1}, k in {30, 45, 60, 200, 400} (f64) / {15, 20, 40, 60} (f32): |vector part|^2 < eps/4, so q is a unit quaternion to working precision whose vector part is far below epsilon ('approximately the identity' for any epsilon test); vectors +-e_i, (1,2,3), (-2,1/2,5), as is and scaled by 2^-20; Vec4 w in {0, 1, -7}.  The rotation moves v by 2 w (u x v), a quantity that is exactly representable next to zero components of v (e.g. (x,0,0,1) * e_y = (0, 1 - x^2, 2x)); oracle in f64: q (v,0) q* / |q|^2 from the very floats; COMPONENTWISE forward bound: every output component is a sum of products q_a q_b v_c, so its error is at most 256 eps x (sum of the absolute values of those products, evaluated along the sandwich) (+ 256 eps x the smallest normal number for underflowing products); for the matrix route the same with the absolute values of the terms of the textbook matrix entries; checked: real q*Vec3, q*Vec4 (w returned equal), real Mat3/Mat4::from(q) (both layouts) times v and decoded fields times v (Mat4: w returned equal); non-trivial: all";
+    rep.section("round 2: float tier f64: quaternions next to the identity (vector part 2^-30 .. 2^-400) applied to vectors, componentwise bound", rule_t, true, false, |s| float_apply_tiny!(s, f64, vec![30, 45, 60, 200, 400]));
+    rep.section("round 2: float tier f32: quaternions next to the identity (vector part 2^-15 .. 2^-60) applied to vectors, componentwise bound", rule_t, true, false, |s| float_apply_tiny!(s, f32, vec![15, 20, 40, 60]));
+    let rule_s = "(a) nearly unit: q = fl(q0) (1 +- 2^-j) formed in the type, q0 in {1, -j, (0.6,0.8,0,0), (1,2,2,4)/5, (-2,3,0,6)/7}, j = 2..J (J = 50 for f64, 22 for f32): inverse, q*inverse(q), inverse(q)*q, magnitude, normalized (also |normalized|^2 = 1) against the f64 oracle of the float tier above, 256 eps; a shortcut for 'already unit' inputs with any threshold above a few eps shows here; (b) single lane: q with one non-zero component v, v = +-(2i+1) for i < 50 and +-{0.1, 1e-3, 1/3, 0.7, 1+2^-20, 1-2^-21, 123456.789}, each also times 2^-30 and 2^30, in each of the four lanes: in binary floating point sqrt(fl(v v)) = |v| exactly when nothing overflows or underflows, so magnitude(q) == |v| and normalized(q) == +-(unit lane) EXACTLY (w/w = 1; a reciprocal-multiply v * (1/|v|) is off by an ulp for most of these v); (c) q = a 2^-k, a in {-1,0,1}^4 minus 0, k = 520 (f64) / 70 (f32): |q|^2 = |a|^2 4^-k lies in the subnormal range but is exactly representable there (verified on the real magnitude_squared, machinery error otherwise), inverse(q) = conj(a)/|a|^2 2^k and normalized(q) = a/|a| are ordinary numbers: inverse within 256 eps relative, both products with q equal to 1 within 256 eps, normalized within 256 eps (1/|q|^2 alone is not representable: 2^1040 / 2^140); non-trivial: all";
+    rep.section("round 2: float tier f64: nearly unit quaternions, single-lane quaternions (exact), squared norm in the subnormal range", rule_s, true, false, |s| float_algebra_special!(s, f64, 50, 520));
+    rep.section("round 2: float tier f32: nearly unit quaternions, single-lane quaternions (exact), squared norm in the subnormal range", rule_s, true, false, |s| float_algebra_special!(s, f32, 22, 70));
+    let rule_a = "q = (axis/|axis| sin(h), cos(h)) computed in f64 and rounded to the type, half angle h = +-m 2^-j and +-(pi - m 2^-j), m in {1, 1.5}, j = 3..J (J = 27 for f64, 13 for f32), axes the 26 directions of {-1,0,1}^3; kept when eps <= 1 - w^2 < 1/64 (above: the tiers above; below: the code's own guard region, where w*w may round to 1 - counted, not asserted).  In the kept range w^2 <= 1 - eps, the largest float below 1 is 1 - eps/2 and rounding is monotone, so 1 - fl(w w) >= eps/2 > eps^2: the guard `s < epsilon` cannot fire and axis = xyz / s: (1) axis x xyz = 0 within 8 eps |axis| |xyz| and (axis . xyz) sin(angle/2) > 0 - every component of xyz is divided by one and the same s, a bound that does not suffer from the cancellation in s; (2) Rodrigues(axis, cos angle, sin angle) vs the reference matrix of the very q within 256 eps (1 + 1/s), s = sqrt(1 - w^2) (the angle 2 acos(w) is off by (|q|^2 - 1)/s <= 4 eps/s for a q that is unit only up to rounding; the length error eps/s^2 of the axis enters times sin(angle) ~ 2s); (3) |axis| = 1 within 256 eps 2/s^2 as above; non-trivial: all";
+    rep.section("round 2: into_angle_axis float tier f64: angles from 1-w^2 = 1/64 down to eps, axis parallel to the vector part", rule_a, true, false, |s| float_angle_axis_small!(s, f64, 27));
+    rep.section("round 2: into_angle_axis float tier f32: angles from 1-w^2 = 1/64 down to eps, axis parallel to the vector part", rule_a, true, false, |s| float_angle_axis_small!(s, f32, 13));
 }
